@@ -73,6 +73,12 @@ def witness_fn(tier):
     def witness(group, names, seed):
         from harness import lawsearch
         budget = 150 if tier == "quick" else 1500
+        if group.startswith(("undecided:Cacheable", "Cacheable:")):
+            for cls in ("Dataset", "Option", "Switch", "FunctionApplication", "WithOptions", "Cached"):
+                w = lawsearch.search(cls, "FP", seed, budget)
+                if w:
+                    return w
+            return None
         if group.startswith("undecided:"):
             cls = group.split(":", 1)[1].split(".")[0]
             for law in ("L1", "L2", "L3", "L4a", "L5", "L5d", "L6", "L6v", "C05", "C08", "C06"):
